@@ -118,6 +118,20 @@ func relOf(cond ssa.Value, val bool) (Rel, bool) {
 	}
 	b, ok := cond.(*ssa.BinOp)
 	if !ok {
+		// a predicate extracted into a module function with a single return of a comparison:
+		// the relation is the callee's (its operands are the callee's values — loads of the
+		// receiver's fields, calls on it — which the rules recognise by type, not by identity)
+		if cl, isCall := cond.(*ssa.Call); isCall {
+			if callee := cl.Call.StaticCallee(); callee != nil && inRepo(callee) && len(callee.Blocks) == 1 {
+				for _, in := range callee.Blocks[0].Instrs {
+					if ret, isRet := in.(*ssa.Return); isRet && len(ret.Results) == 1 {
+						if _, isCmp := stripNot(ret.Results[0]).(*ssa.BinOp); isCmp {
+							return relOf(ret.Results[0], val)
+						}
+					}
+				}
+			}
+		}
 		return Rel{}, false
 	}
 	switch b.Op {
@@ -226,4 +240,134 @@ func sameMemValue(a, b ssa.Value) bool {
 		}
 	}
 	return true
+}
+
+func stripNot(v ssa.Value) ssa.Value {
+	for {
+		u, ok := v.(*ssa.UnOp)
+		if !ok || u.Op != token.NOT {
+			return v
+		}
+		v = u.X
+	}
+}
+
+// reachUnder: the first instruction satisfying target that control can reach from the entry of
+// fn when every branch whose condition the assumption decides takes the decided side; paths
+// stop at instructions satisfying cut. The assumption is asked about the condition with its
+// negations stripped. nil when no such instruction is reachable. Unlike a dominating-facts
+// test this does not depend on how the tests are spelled: `if a { return }; if b { return }`
+// and `if a || b { return }` prune the same edges.
+func reachUnder(fn *ssa.Function, assume func(cond ssa.Value) (val, known bool), target, cut func(ssa.Instruction) bool) ssa.Instruction {
+	if len(fn.Blocks) == 0 {
+		return nil
+	}
+	seen := map[*ssa.BasicBlock]bool{}
+	work := []*ssa.BasicBlock{fn.Blocks[0]}
+	for len(work) > 0 {
+		b := work[len(work)-1]
+		work = work[:len(work)-1]
+		if seen[b] {
+			continue
+		}
+		seen[b] = true
+		stopped := false
+		for _, in := range b.Instrs {
+			if target(in) {
+				return in
+			}
+			if cut != nil && cut(in) {
+				stopped = true
+				break
+			}
+		}
+		if stopped {
+			continue
+		}
+		if iff, ok := b.Instrs[len(b.Instrs)-1].(*ssa.If); ok && len(b.Succs) == 2 {
+			cond, flip := iff.Cond, false
+			for {
+				u, isU := cond.(*ssa.UnOp)
+				if !isU || u.Op != token.NOT {
+					break
+				}
+				cond, flip = u.X, !flip
+			}
+			if v, known := assume(cond); known {
+				if v != flip {
+					work = append(work, b.Succs[0])
+				} else {
+					work = append(work, b.Succs[1])
+				}
+				continue
+			}
+		}
+		work = append(work, b.Succs...)
+	}
+	return nil
+}
+
+// lenPositiveCond: the value of cond when len(x) > 0 (pos) or len(x) == 0 (!pos) for the x that
+// isX accepts; known is false when cond is not such a test.
+func lenPositiveCond(cond ssa.Value, isX func(ssa.Value) bool, pos bool) (val, known bool) {
+	rel, ok := relOf(cond, true)
+	if !ok {
+		return false, false
+	}
+	x, y, op := rel.X, rel.Y, rel.Op
+	if !isLenCall(x) {
+		x, y, op = y, x, flipOp(op)
+	}
+	if !isLenCall(x) || !isX(x.(*ssa.Call).Call.Args[0]) {
+		return false, false
+	}
+	k, ok := constInt(y)
+	if !ok {
+		return false, false
+	}
+	// evaluate len OP k with len >= 1 (pos) or len == 0
+	if !pos {
+		switch op {
+		case token.GTR:
+			return 0 > k, true
+		case token.GEQ:
+			return 0 >= k, true
+		case token.LSS:
+			return 0 < k, true
+		case token.LEQ:
+			return 0 <= k, true
+		case token.EQL:
+			return 0 == k, true
+		case token.NEQ:
+			return 0 != k, true
+		}
+		return false, false
+	}
+	switch op {
+	case token.GTR: // len > k: certain when k <= 0
+		if k <= 0 {
+			return true, true
+		}
+	case token.GEQ:
+		if k <= 1 {
+			return true, true
+		}
+	case token.LSS: // len < k: false when k <= 1
+		if k <= 1 {
+			return false, true
+		}
+	case token.LEQ:
+		if k <= 0 {
+			return false, true
+		}
+	case token.EQL:
+		if k <= 0 {
+			return false, true
+		}
+	case token.NEQ:
+		if k <= 0 {
+			return true, true
+		}
+	}
+	return false, false
 }
